@@ -8,6 +8,7 @@
 
 use crate::c18::{events_match, snap, AMon, Snap};
 use crate::sim::*;
+#[allow(unused_imports)]
 use bevy::prelude::*;
 use bevy::utils::{Duration, HashMap};
 use bevy_mina::prelude::*;
@@ -273,15 +274,14 @@ pub fn run(run: &mut Run) {
         "real bevy App with register_animation_key::<Cv, Key>() under 4 registration orders; entities with Animator + \
         AnimationSelector (keys Idle/Go/Done with timelines, NoTl without), optionally AnimationChain (none, go->done, a cycle, \
         self-loop + idle->go, via a key without timeline) and optionally a second animated component with its own Animator (short or \
-        long timeline); ALL histories of length {depth} (quick: on 6 of the configurations, length {} on all) over {{no-op, assign Idle/Go/Done/NoTl}} x frame deltas {{0, 1/512 s, 1/8 s, 64 s}} \
+        long timeline); ALL histories of length {depth} over {{no-op, assign Idle/Go/Done/NoTl}} x frame deltas {{0, 1/512 s, 1/8 s, 64 s}} \
         for each of 30 configurations plus random histories of 30-120 frames; every frame must be explained by the specification \
         (selection iff key differs from the key last acted on: animator restarts from 0, component does not jump, then follows the \
         new timeline started from the values at the switch; key without timeline => state None and component untouched; re-assigning \
         the current key => nothing; the key only changes by itself when the governed Animator ended in the previous frame with key \
         k and chain[k] exists) under some (system order, race outcome); non-trivial = a frame with a selection, a chain reaction or a \
         pending Ended event; distinct = (configuration, selection/steady, key before/after, animator transition, explicit op?, chain \
-        pending?, other animator ended?)",
-        depth - 1
+        pending?, other animator ended?)"
     );
     run.assumptions = vec![
         "chain_animations and select_animation are mutually unordered in mina's registration: either order is a legitimate schedule".into(),
@@ -293,17 +293,18 @@ pub fn run(run: &mut Run) {
     let verbose = rc.is_some();
     let cfgs = configs();
     // quick: full depth only on a spread of 6 configurations, depth-1 histories on all of them
-    let deep: Vec<usize> = if thorough { (0..cfgs.len()).collect() } else { vec![3, 7, 10, 13, 22, 28] };
+    let deep: Vec<usize> = (0..cfgs.len()).collect();
     let per = 20u64.pow(depth as u32);
     let per_shallow = 20u64.pow(depth as u32 - 1);
     let n_deep = per * deep.len() as u64;
-    let n_exh = n_deep + if thorough { 0 } else { per_shallow * cfgs.len() as u64 };
-    let n_rnd: u64 = if thorough { 40_000 } else { 2_000 };
+    let n_exh = n_deep;
+    let n_rnd: u64 = if thorough { 200_000 } else { 6_000 };
     run.extra.push(("configurations".into(), J::U(cfgs.len() as u64)));
     run.extra.push(("exhaustive_histories".into(), J::U(n_exh)));
     let ops = [Op::Nop, Op::Assign(Key::Idle), Op::Assign(Key::Go), Op::Assign(Key::Done), Op::Assign(Key::NoTl)];
     run.parallel(|w, nw, acc| {
         let mut sims: Vec<Sim> = (0..4).map(|o| Sim::new(o)).collect();
+        let mut mt_sim: Option<Sim> = None;
         for i in my_cases(rc, STREAM_EXH, n_exh, w, nw) {
             let (cfg, mut x, dep) = if i < n_deep {
                 (&cfgs[deep[(i / per) as usize]], i % per, depth)
@@ -337,7 +338,13 @@ pub fn run(run: &mut Run) {
                 })
                 .collect();
             let o = r.usize(4);
-            guarded(acc, "c19", STREAM_RND, i, |acc| run_history(&mut sims[o], cfg, &steps, acc, STREAM_RND, i, verbose));
+            if i % 4 == 0 {
+                let sim = mt_sim.get_or_insert_with(|| Sim::with_executor((w % 4) as u8, true));
+                acc.count("histories_on_multi_threaded_executor", 1);
+                guarded(acc, "c19", STREAM_RND, i, |acc| run_history(sim, cfg, &steps, acc, STREAM_RND, i, verbose));
+            } else {
+                guarded(acc, "c19", STREAM_RND, i, |acc| run_history(&mut sims[o], cfg, &steps, acc, STREAM_RND, i, verbose));
+            }
         }
     });
     run.exhaustive = Some(false);
